@@ -288,7 +288,7 @@ func TestVerifC30RoundTrip(t *testing.T) {
 	}
 	dense := 300000
 	if !vfQuick() {
-		dense = 3000000
+		dense = 1000000
 	}
 	for n := 0; n <= dense; n++ {
 		one(n)
@@ -310,7 +310,7 @@ func TestVerifC30RoundTrip(t *testing.T) {
 	}
 	nrand := 200000
 	if !vfQuick() {
-		nrand = 2000000
+		nrand = 1000000
 	}
 	for i := 0; i < nrand; i++ {
 		// uniformly distributed bit lengths
